@@ -45,23 +45,15 @@ def maxS [LT α] [DecidableLT α] (a b : α) : α := if a < b then b else a
 namespace Mat
 variable {m n k : Nat}
 
-/-- tabulate (identity function; keeps evaluation polynomial) -/
-def force (A : Mat α m n) : Mat α m n :=
-  let rows : Vector (Vector α n) m := Vector.ofFn fun i => Vector.ofFn fun j => A i j
-  fun i j => rows[i][j]
-
-@[simp] theorem force_eq (A : Mat α m n) : force A = A := by
-  funext i j; simp [force]
-
 def transpose (A : Mat α m n) : Mat α n m := fun j i => A i j
 
 /-- `jnp.matmul` -/
 def mul [Add α] [Mul α] [Zero α] (A : Mat α m k) (B : Mat α k n) : Mat α m n :=
-  force fun i j => sumFin fun l => A i l * B l j
+  fun i j => sumFin fun l => A i l * B l j
 
-def add [Add α] (A B : Mat α m n) : Mat α m n := force fun i j => A i j + B i j
-def sub [Sub α] (A B : Mat α m n) : Mat α m n := force fun i j => A i j - B i j
-def smul [Mul α] (c : α) (A : Mat α m n) : Mat α m n := force fun i j => c * A i j
+def add [Add α] (A B : Mat α m n) : Mat α m n := fun i j => A i j + B i j
+def sub [Sub α] (A B : Mat α m n) : Mat α m n := fun i j => A i j - B i j
+def smul [Mul α] (c : α) (A : Mat α m n) : Mat α m n := fun i j => c * A i j
 
 /-- `jnp.eye(n)` -/
 def one [Zero α] [One α] : Mat α n n := fun i j => if i = j then 1 else 0
@@ -74,7 +66,7 @@ def maskedId [Zero α] [One α] [Mul α] (s : Nat) : Mat α n n := fun i j => (o
 
 /-- `matrix *= ix[newaxis, :]; matrix *= ix[:, newaxis]` -/
 def mask [Zero α] [One α] [Mul α] (s : Nat) (A : Mat α n n) : Mat α n n :=
-  force fun i j => A i j * ix s j * ix s i
+  fun i j => A i j * ix s j * ix s i
 
 /-- `jnp.max(jnp.abs(A))` (fold from 0: entries of `abs` are non-negative) -/
 def maxAbs [Neg α] [LT α] [DecidableLT α] [Zero α] (A : Mat α m n) : α :=
@@ -90,12 +82,26 @@ end Mat
 
 def dot [Add α] [Mul α] [Zero α] {n : Nat} (u v : Vec α n) : α := sumFin fun i => u i * v i
 
-def forceV {n : Nat} (v : Vec α n) : Vec α n :=
-  let a := Vector.ofFn v
-  fun i => a[i]
+/-! Strict carriers.  A definition of function type is compiled as a function of all its arguments, so a chain of
+matrix operations on `Mat` closures would be re-evaluated entry by entry (exponential in the chain length).  Loop states
+therefore hold tabulated data (`DVec`, `DMat`); `fn`/`tab` are mutually inverse views (`fn_tab`). -/
 
-@[simp] theorem forceV_eq {n : Nat} (v : Vec α n) : forceV v = v := by
-  funext i; simp [forceV]
+abbrev DVec (α : Type) (n : Nat) := Vector α n
+
+def DVec.fn {n : Nat} (v : DVec α n) : Vec α n := fun i => v[i]
+def DVec.tab {n : Nat} (v : Vec α n) : DVec α n := Vector.ofFn v
+
+@[simp] theorem DVec.fn_tab {n : Nat} (v : Vec α n) : (DVec.tab v).fn = v := by
+  funext i; simp [DVec.fn, DVec.tab]
+
+structure DMat (α : Type) (n : Nat) where
+  rows : Vector (Vector α n) n
+
+def DMat.fn {n : Nat} (X : DMat α n) : Mat α n n := fun i j => X.rows[i][j]
+def DMat.tab {n : Nat} (A : Mat α n n) : DMat α n := ⟨Vector.ofFn fun i => Vector.ofFn fun j => A i j⟩
+
+@[simp] theorem DMat.fn_tab {n : Nat} (A : Mat α n n) : (DMat.tab A).fn = A := by
+  funext i j; simp [DMat.fn, DMat.tab]
 
 /-! ### `mat_power` -/
 
@@ -115,9 +121,9 @@ def matPower {M : Type} (mul : M → M → M) (one : M) (x : M) (p : Nat) : M :=
 
 structure PIState (α : Type) (n : Nat) where
   i : Nat
-  v : Vec α n
+  v : DVec α n
   s : α
-  sv : Vec α n
+  sv : DVec α n
   run : Bool
 
 section PI
@@ -126,11 +132,11 @@ variable [Add α] [Sub α] [Mul α] [Div α] [Neg α] [Zero α] [LT α] [Decidab
 /-- `_iter_body` of `power_iteration` -/
 def piBody {n : Nat} (sqrt : α → α) (tol : α) (A : Mat α n n) (st : PIState α n) : PIState α n :=
   -- new_v = new_v / jnp.linalg.norm(new_v)
-  let nrm := sqrt (dot st.v st.v)
-  let nv : Vec α n := forceV fun i => st.v i / nrm
+  let nrm := sqrt (dot st.v.fn st.v.fn)
+  let nv : DVec α n := DVec.tab fun i => st.v.fn i / nrm
   -- s_v = einsum("ij,j->i", matrix, new_v);  s_new = einsum("i,i->", new_v, s_v)
-  let sv := forceV (Mat.mulVec A nv)
-  let snew := dot nv sv
+  let sv := DVec.tab (Mat.mulVec A nv.fn)
+  let snew := dot nv.fn sv.fn
   { i := st.i + 1, v := sv, s := snew, sv := sv, run := decide (tol < absS (snew - st.s)) }
 
 /-- the `while_loop`: `i < num_iters ∧ run_step` (fuel = remaining iterations) -/
@@ -141,7 +147,7 @@ def piLoop {n : Nat} (sqrt : α → α) (tol : α) (A : Mat α n n) (numIters : 
 /-- `power_iteration(matrix, num_iters, error_tolerance, padding_start)`: the eigenvalue estimate `s_out`.
 `v0` is the (already masked) start vector `RandomState(1729).uniform(-1, 1, n) * (arange(n) < padding_start)`. -/
 def powerIteration {n : Nat} (sqrt : α → α) (tol : α) (numIters : Nat) (A : Mat α n n) (v0 : Vec α n) : α :=
-  (piLoop sqrt tol A numIters numIters { i := 0, v := v0, s := 0, sv := v0, run := true }).s
+  (piLoop sqrt tol A numIters numIters { i := 0, v := DVec.tab v0, s := 0, sv := DVec.tab v0, run := true }).s
 
 end PI
 
@@ -259,15 +265,15 @@ end Newton
 section Concrete
 variable [Add α] [Sub α] [Mul α] [Div α] [Neg α] [Zero α] [One α] [OfNat α 2] [OfNat α 10] [LT α] [DecidableLT α]
 
-/-- matrices `n × n` with padding start `s` (`s = n`: no padding) -/
-def matAlg (n s : Nat) (sqrt : α → α) : Alg (Mat α n n) α where
-  mul := Mat.mul
-  add := Mat.add
-  smul := Mat.smul
-  one := Mat.one
-  e := Mat.maskedId s
-  dist := fun X => Mat.maxAbs (Mat.sub X (Mat.maskedId s))
-  fro := Mat.fro sqrt
+/-- `n × n` matrices (tabulated) with padding start `s` (`s = n`: no padding) -/
+def matAlg (n s : Nat) (sqrt : α → α) : Alg (DMat α n) α where
+  mul := fun X Y => DMat.tab (Mat.mul X.fn Y.fn)
+  add := fun X Y => DMat.tab (Mat.add X.fn Y.fn)
+  smul := fun c X => DMat.tab (Mat.smul c X.fn)
+  one := DMat.tab Mat.one
+  e := DMat.tab (Mat.maskedId s)
+  dist := fun X => Mat.maxAbs (Mat.sub X.fn (Mat.maskedId s))
+  fro := fun X => Mat.fro sqrt X.fn
 
 /-- result of a root routine -/
 structure RootOut (α : Type) (n : Nat) where
@@ -294,10 +300,10 @@ def newtonRoot {n : Nat} (s : Nat) (c : NConsts α) (p : Nat) (pα alpha : α) (
     (thousand epsFloor eps maxEv : α) (A : Mat α n n) : RootOut α n :=
   let K := matAlg n s sqrt
   let ridge := ridgeOf eps maxEv epsFloor
-  let o := newtonOuter K c p pα alpha rootp cast32 thousand (Mat.mask s A) ridge
+  let o := newtonOuter K c p pα alpha rootp cast32 thousand (DMat.tab (Mat.mask s A)) ridge
   -- padding_start == 0: root and error are overridden by zeros
   if s = 0 then { x := fun _ _ => 0, err := 0, iters := o.iters, ratio := o.ratio, maxEv := maxEv, retries := o.tries }
-  else { x := o.x, err := o.err, iters := o.iters, ratio := o.ratio, maxEv := maxEv, retries := o.tries }
+  else { x := o.x.fn, err := o.err, iters := o.iters, ratio := o.ratio, maxEv := maxEv, retries := o.tries }
 
 /-! ### eigh root -/
 
@@ -312,7 +318,7 @@ def eighInvE [BEq α] {n : Nat} (s : Nat) (invroot : α → α) (ridge : α) (e 
 
 /-- `val = root @ root.T` with `root = u * sqrt(inv_e)` -/
 def eighVal {n : Nat} (sqrt : α → α) (U : Mat α n n) (invE : Vec α n) : Mat α n n :=
-  let root : Mat α n n := Mat.force fun i k => U i k * sqrt (invE k)
+  let root : Mat α n n := fun i k => U i k * sqrt (invE k)
   Mat.mul root (Mat.transpose root)
 
 /-- the error figure: `max|(uᵀ R u - diag(e)) * flip(ix)|` (`e` already masked) -/
@@ -335,12 +341,12 @@ def eighRoot [BEq α] {n : Nat} (s : Nat) (sqrt invroot : α → α) (ridge : α
 
 /-- `matrix -= (eigvecs * sqrt(eigvals - min eigvals)) (…)ᵀ` -/
 def lobpcgDeflate {n k : Nat} (sqrt : α → α) (A : Mat α n n) (V : Mat α n k) (w : Vec α k) (wmin : α) : Mat α n n :=
-  let sv : Mat α n k := Mat.force fun i l => V i l * sqrt (w l - wmin)
+  let sv : Mat α n k := fun i l => V i l * sqrt (w l - wmin)
   Mat.sub A (Mat.mul sv (Mat.transpose sv))
 
 /-- `resultant = conditioned - (eigvecs * sqrt(pth_diff)) (…)ᵀ`, `pth_diff` a kernel output -/
 def lobpcgRedeflate {n k : Nat} (sqrt : α → α) (X : Mat α n n) (V : Mat α n k) (pthDiff : Vec α k) : Mat α n n :=
-  let sv : Mat α n k := Mat.force fun i l => V i l * sqrt (pthDiff l)
+  let sv : Mat α n k := fun i l => V i l * sqrt (pthDiff l)
   Mat.sub X (Mat.mul sv (Mat.transpose sv))
 
 end Concrete
